@@ -39,11 +39,23 @@ def invalid_by_construction():
         "bad-version-token": g.replace(b"HTTP/1.1", b"HTTX/1.1"), "asterisk-target": g.replace(p, b"*"),
         "plain-get": b"GET /api/jet/ HTTP/1.1\r\nHost: x\r\n\r\n", "connect-method": g.replace(b"GET", b"CONNECT"),
         "space-in-target": g.replace(p, b"/api/jet/ x"), "raw-jet-on-http-port": b"\x00\x00\x00\x18{\"id\":1,\"method\":\"info\"}",
+        # a carriage return directly in front of a line end (the delimiter's own first byte once more): request line, a header line,
+        # the empty line - each of these requests is complete and is no valid upgrade
+        "cr-cr-lf-after-request-line": g.replace(b"HTTP/1.1\r\n", b"HTTP/1.1\r\r\n", 1), "cr-cr-lf-after-wrong-path": b"GET /nope HTTP/1.1\r\r\nHost: x\r\n\r\n",
+        "garbage-first-line-only": b"\x01\x02\x03 garbage\r\n",
+        "cr-cr-lf-only-line": b"GET /api/jet/ HTTP/1.1\r\r\n", "cr-cr-lf-bare": b"\r\r\n", "cr-cr-lf-after-garbage": b"garbage\r\r\n",
+        "cr-cr-lf-after-a-header": g.replace(b"Host: x\r\n", b"Host: x\r\r\n", 1) if b"Host: x\r\n" in g else g[:-2] + b"X-A: b\r\r\n\r\n",
+        "cr-cr-lf-as-empty-line": g[:-2] + b"\r\r\n",
         # over-long request lines in which the target shows up again right where a reader with a 512 / 128 byte buffer starts its
         # next piece (whatever is done with such a line, it is one request line with one target)
         **{"long-request-line-target-again-%d" % n: b"GET /api/jet/" + b"a" * n + b"/api/jet/x HTTP/1.1\r\n" + g.split(b"\r\n", 1)[1]
            for n in (96, 110, 113, 114, 115, 116, 127, 128, 480, 494, 497, 498, 499, 500, 511, 512, 1010)},
     }
+
+
+# requests whose FIRST line is complete (it ends with CRLF) and can not be the start of anything acceptable, whatever might follow:
+# nothing is gained by waiting for more
+HOPELESS_FIRST_LINE = {"cr-cr-lf-after-garbage", "garbage-first-line-only"}
 
 
 def class_of(name, d, max_msg):
@@ -100,7 +112,7 @@ def http(case, res):
             elif cls == "invalid":
                 if status == 101:
                     S.v("http/non-upgrade-answered-101:" + label, repr(data[:120]))
-                elif status is None and not closed_early and b"\r\n\r\n" in data and label != "truncated":
+                elif status is None and not closed_early and (b"\r\n\r\n" in data or label in HOPELESS_FIRST_LINE) and label != "truncated":
                     # the request is complete (its header block ended) and it is not a valid upgrade: waiting for more is no answer
                     S.v("http/complete-non-upgrade-left-pending:" + label, repr(data[:120]))
             # end of the exchange from the client side
